@@ -26,7 +26,13 @@ def accuracy(Y1, Y2):
     if isinstance(Y1, np.ndarray):
         return np.linalg.norm(Y1 - Y2) / np.linalg.norm(Y2)
 
-    z1, p1 = teneva.norm(sub(Y1, Y2), use_stab=True)
+    # || Y1 - Y2 ||^2 = <Y1, Y1> - 2 <Y1, Y2> + <Y2, Y2>, each term with its own
+    # power-of-two factor (a joint sweep over the difference tensor loses the
+    # smaller tensor if the partial norms differ by more than the float range):
+    v = [mul_scalar(Y1, Y1, True), mul_scalar(Y1, Y2, True), mul_scalar(Y2, Y2, True)]
+    q = max([q_ for v_, q_ in v if v_ != 0] or [0])
+    z1 = sum(c * np.ldexp(v_, int(q_ - q)) for c, (v_, q_) in zip([1., -2., 1.], v))
+    z1, p1 = np.sqrt(z1) if z1 > 0 else 0., q / 2
     z2, p2 = teneva.norm(Y2, use_stab=True)
 
     if p1 - p2 > 500:
